@@ -1205,6 +1205,8 @@ class PDFPageInterpreter:
                 ctm=mult_matrix(matrix, self.ctm),
             )
             self.device.end_figure(xobjid)
+            # rendering the form has left its own matrix in the shared device
+            self.device.set_ctm(self.ctm)
         elif subtype is LITERAL_IMAGE and "Width" in xobj and "Height" in xobj:
             self.device.begin_figure(xobjid, (0, 0, 1, 1), MATRIX_IDENTITY)
             self.device.render_image(xobjid, xobj)
